@@ -91,7 +91,11 @@ class ProtocolRecorder:
 
         def rlog(**e):
             with rec.lock:
-                if rec.removals:
+                # (what the orchestrator sends before it processes a removal - pause requests, the notice to the leaving agents -
+                # opens the record of the NEXT removal once the previous repair has ended)
+                opens_next = e["e"] in ("pause_send", "removed_send") and (
+                    not rec.removals or any(x["e"] == "repair_end" for x in rec.removals[-1]["ev"]))
+                if rec.removals and not opens_next:
                     rec.removals[-1]["ev"].append(e)
                 else:
                     rec.pending.append(e)
